@@ -17,7 +17,7 @@ def run_trace(prop, case, monitors, on_done=None, world_kw=None):
                 for m in monitors:
                     m(ex, False)
             if case.get('drain', True):
-                ex.drain(case.get('horizon'))
+                ex.drain(case.get('horizon'), case.get('keep_policies', False))
                 for m in monitors:
                     m(ex, True)
         except Violation as v:
@@ -54,13 +54,15 @@ def history_property(ctx, prop, profile, monitors, summarize, max_examples, step
                     ex.do(a)
                     for m in monitors:
                         m(ex, False)
-                ex.drain(profile.get('horizon'))
+                ex.drain(profile.get('horizon'), profile.get('keep_policies', False))
                 for m in monitors:
                     m(ex, True)
             except Violation as v:
                 case['actions'] = list(ex.actions)
                 if profile.get('horizon') is not None:
                     case['horizon'] = profile['horizon']
+                if profile.get('keep_policies'):
+                    case['keep_policies'] = True
                 v.case = case
                 raise
             extra, nt, classes = summarize(ex)
